@@ -92,12 +92,20 @@ GapBits(e) == BitSet(AllBitsMask(e), e.w) \ FlagMask(e)                      \* 
 (* is a member with value v).  Enum: the members.  Flag: every combination of bits used by        *)
 (* members, named or not (also bits that only a multi-bit member uses); boundary KEEP: every      *)
 (* pattern.  (STRICT raises for other patterns, CONFORM drops the other bits, EJECT returns an int.)*)
+(* STRICT additionally refuses ("no members with value ...") a combination that contains named    *)
+(* members but is not made up of named members entirely (Flag._missing_: e.g. X=1, YZ=6: 3 = X|2  *)
+(* is refused, 2 and 4 alone are accepted, 7 = X|YZ is accepted).                                  *)
+NamedIn(e, v) == UNION {BitSet(m, e.w) : m \in {x \in SeqToSet(e.members) : x # 0 /\ BitSet(x, e.w) \subseteq BitSet(v, e.w)}}
 ValidValue(e, v) ==
     IF e.k = "int" THEN v \in Range(e)
     ELSE IF ~e.flag THEN v \in SeqToSet(e.members)
     ELSE /\ v \in 0..(Pow2(e.w) - 1)
          /\ (e.boundary = "keep" \/ BitSet(v, e.w) \subseteq FlagMask(e))
+         /\ (e.boundary = "strict" => NamedIn(e, v) \in {BitSet(v, e.w), {}})
 ValidValues(e) == {v \in Range(e) : ValidValue(e, v)}
+(* a | b, a & b, a ^ b are Class(bitwise result): DEFINED where that is a value of the class (for a *)
+(* STRICT class with multi-bit members of their own bits Python raises otherwise; a view has no     *)
+(* defined result there)                                                                          *)
 FlagOr(e, a, b)  == FromBitSet(BitSet(a, e.w) \cup BitSet(b, e.w))
 FlagAnd(e, a, b) == FromBitSet(BitSet(a, e.w) \cap BitSet(b, e.w))
 FlagXor(e, a, b) == FromBitSet((BitSet(a, e.w) \cup BitSet(b, e.w)) \ (BitSet(a, e.w) \cap BitSet(b, e.w)))
@@ -121,6 +129,14 @@ FlagNot(e, a) ==
          ELSE Max2(all + 1, Pow2(BitLen(a + 1))) - a - 1
     ELSE FromBitSet(SinglesMask(e) \ BitSet(a, e.w))
 FlagNotBits(e, a) == FlagNot(e, a) % Pow2(e.w)       \* the same as a bit pattern of the shape (what a view can hold)
+(* GUARD (decision recorded in the evidence as an assumption): for KEEP / EJECT classes Python converts *)
+(* the unbounded integer ~a back with _all_bits_, which it derives from the MEMBERS, while a view over  *)
+(* an n-bit hardware value complements the n bits of the SHAPE; docs/stdlib/enum.rst does not mention   *)
+(* boundary=.  Where the shape is wider than the members need the two readings differ and `~` of a      *)
+(* FlagView is UNSPECIFIED; it is compared with the real code only where they coincide.  (FlagNot above *)
+(* is Python's definition in every case and is cross-checked against Python's enum.Flag for all classes;*)
+(* all other operators, and `~` of STRICT / CONFORM classes, are compared on every class.)              *)
+InvertSpecified(e) == e.boundary \in {"strict", "conform"} \/ AllBitsMask(e) = Pow2(e.w) - 1
 
 ----------------------------------------------------------------------------
 (* Placement rules                                                                              *)
@@ -392,6 +408,7 @@ EnumTable(e) ==
                        FlagEq(e, vs[x], vs[y]), FlagIn(e, vs[x], vs[y])>>]],
      nots    |-> IF ~e.flag THEN <<>> ELSE [x \in 1..Len(vs) |-> FlagNot(e, vs[x])],         \* Python's integer
      notbits |-> IF ~e.flag THEN <<>> ELSE [x \in 1..Len(vs) |-> FlagNotBits(e, vs[x])],     \* as a pattern of the shape
+     notspec |-> e.flag /\ InvertSpecified(e),            \* is ~ of a view of this class specified (see the guard)
      bools   |-> IF ~e.flag THEN <<>> ELSE [x \in 1..Len(vs) |-> FlagBool(e, vs[x])],
      masks   |-> IF ~e.flag THEN <<>> ELSE
                  <<FromBitSet(FlagMask(e)), FromBitSet(SinglesMask(e)), AllBitsMask(e)>>]
@@ -560,7 +577,8 @@ FlagLaws == IsEnumState /\ top.flag =>
         sm == FromBitSet(SinglesMask(e)) IN
     \A a \in V :
         /\ \A b \in V :
-              /\ FlagOr(e, a, b) \in V /\ FlagAnd(e, a, b) \in V /\ FlagXor(e, a, b) \in V
+              /\ e.boundary # "strict" \/ FlagMask(e) = SinglesMask(e) =>
+                    FlagOr(e, a, b) \in V /\ FlagAnd(e, a, b) \in V /\ FlagXor(e, a, b) \in V
               /\ FlagIn(e, a, b) <=> FlagAnd(e, a, b) = a
               /\ e.boundary \in {"strict", "conform"} =>
                     FlagNot(e, FlagOr(e, a, b)) = FlagAnd(e, FlagNot(e, a), FlagNot(e, b))
